@@ -366,7 +366,8 @@ def main():
         for i in range(max(20, n // 8)):
             nl = rnd.choice(["\n", "\n", "\r\n"])
             lines = []
-            pad = lambda: lines.extend(rnd.choice([[], [""], ["# comment"], ["", "# c", ""]]))
+            # comments may hold characters that str.splitlines() treats as line boundaries but the lexer (and a file read line by line) does not
+            pad = lambda: lines.extend(rnd.choice([[], [""], ["# comment"], ["", "# c", ""], ["# page\x0cbreak"], ["# a\x0bb \x1c \x1d \x1e c"], ["# nel\x85 and \u2028 sep"]]))
             pad()
             lines.append("A = EEMSRead(")
             lines.append("    InFileName = d.csv,")
@@ -438,7 +439,7 @@ def main():
                 pr = subprocess.run([sys.executable, "-c", "import sys; sys.argv=['mpilot','eems-csv',%r]; from mpilot.cli.mpilot import main; main()" % mp],
                                     cwd=wd, stdout=subprocess.PIPE, stderr=subprocess.PIPE, universal_newlines=True)
                 dist["cli_runs"] += 1
-                marked = [ln for ln in pr.stderr.splitlines() if ln.startswith("--> ")]
+                marked = [ln for ln in pr.stderr.split("\n") if ln.startswith("--> ")]
                 expect_text = src.replace("\r\n", "\n").split("\n")[want - 1]
                 if pr.returncode == 0 or len(marked) != 1 or marked[0][4:] != expect_text:
                     fails.append({"sig": "C11:cli-marked-line", "what": "the command-line tool marks %r; the offending line %d is %r (exit %d)" % (marked, want, expect_text, pr.returncode), "replay": replay})
